@@ -10,6 +10,7 @@ if [ "$REPO" != /repo ]; then
   [ -f "$REPO/Cargo.lock" ] || cp /repo/Cargo.lock "$REPO"/
 fi
 export VERIF_REPO="$REPO"
+export VERIF_EVIDENCE_DIR="$V/trial_evidence" VERIF_REPLAY_DIR="$V/trial_replays"; mkdir -p "$VERIF_EVIDENCE_DIR" "$VERIF_REPLAY_DIR"
 PROPS="${*:-C01 C02 C03 C04 C05 C06 C07 C08 C09 C10 C11 C12 C13 C14 C15 C16 C17 C18 C19}"
 : > matrix.tsv
 # baseline row: the unchanged tree
